@@ -675,6 +675,35 @@ class TPAnalysis:
                 once(True if qcontent == 'empty' else None, inst, f.shortloc(), '' if qcontent == 'empty' else f'm_queue receives the content of {holder}, which is not known to be empty')
         if not any_visit: self.add('TP.4', None, 'clear()', f.shortloc(), 'no traversal of the queued tasks recognised')
 
+    def other_queue_members(self):
+        """TP.4 for every other public member of the pool that takes tasks out of the queue or destroys queued tasks (a `cancel`, a
+        `drop`, a `clearPending`): a task that is destroyed leaves the queue on the same path (else a worker runs a destroyed
+        object); a task that leaves the queue without being run or destroyed is in nobody's hands the rules follow"""
+        role = {f.name for f in self.fn.values() if f is not None}
+        for g in self.facts.fns:
+            if g.d.get('class') != TP or g.d.get('access') != 'public' or g.d.get('ctor') or g.d.get('dtor') or g.d.get('lambda') or g.d.get('instantiation') or g.name in role: continue
+            if not any(n.is_field('m_queue', TP) for n in g.nodes() if n.k == 'member'): 
+                if not any(n.k == 'call' and n.callee_in_root for n in g.nodes()): continue
+            try: res = run_paths(self.facts, g, TPDomain())
+            except Exception: continue
+            nm = g.qname.split('::')[-1]
+            seen = set()
+            for P, E in res:
+                if P.end not in ('exit', 'return'): continue
+                rm = [e for e in E if e.kind == 'call' and e.obj == 'm_queue' and e.name.split('::')[-1] in ('erase', 'pop_front', 'pop_back', 'clear', 'remove', 'remove_if', 'erase_after', 'resize', 'assign', 'swap', 'operator=')]
+                rm += [e for e in E if e.kind == 'call' and e.obj is None and e.argobjs and e.argobjs[0] == 'm_queue' and e.name.split('::')[-1] in ('erase_if', 'erase', 'swap')]
+                dl = [e for e in E if e.kind == 'delete' and isinstance(e.val, Sym) and e.val.name.startswith('m_queue.')]
+                if not rm and not dl: continue
+                # clear() reached through this member is judged as clear() itself
+                via_clear = 'clear' in self.fn and any(e.kind == 'call' and e.name == self.fn['clear'].name for e in E)
+                if via_clear: continue
+                inst = f'{nm}(): a queued task it destroys leaves the queue, a task it takes out of the queue is destroyed'
+                if dl and not rm: k = (False, inst, dl[0].site, f'{nm}() destroys a queued task and leaves its pointer in m_queue: a worker takes the pointer, runs the destroyed object and deletes it a second time')
+                elif rm and not dl: k = (None, inst, rm[0].site, f'{nm}() takes tasks out of the queue (`{rm[0].name.split("::")[-1]}`) without running or destroying them: who destroys them afterwards is not followed')
+                else: k = (True, inst, rm[0].site, '')
+                if k in seen: continue
+                seen.add(k); self.add('TP.4', *k)
+
     def _pool_loop_conds(self, f):
         out = set()
         for g in [f]:
@@ -756,7 +785,7 @@ class TPAnalysis:
     def run(self):
         if self.rep.broken: return
         self.any_pool_visit = False
-        self.locks(); self.worker(); self.thread_start(); self.start(); self.clear(); self.stop(); self.observers_vs_join()
+        self.locks(); self.worker(); self.thread_start(); self.start(); self.clear(); self.other_queue_members(); self.stop(); self.observers_vs_join()
         if 'stop' in self.fn and not self.any_pool_visit:
             self.add('TP.6c', None, 'stop()', self.fn['stop'].shortloc(), 'no traversal of m_pool after the stop flag recognised')
 
